@@ -254,17 +254,24 @@ Reject(op, why) == /\ last' = Obs(op, why, 0)
 CapacityUsed == cpe + (IF "D24_pending_ignored" \in Defects THEN 0 ELSE PendingStored(pend))
 
 \* put: `lens` = payload lengths of the log records written (parent, then chunks)
+\* the capacity test of put / update: the bytes the payload will occupy are charged against the cached payload end
+Over(slen) == slen > 0 /\ CapacityUsed + slen > Capacity
+
+PutDo(uri, role, ts, pay, emb, nchunks, cembs, slen, lens, lexLen, pe, meta) ==
+  LET pseq == wseq + 1
+      parent == [Ins(pseq, uri, role, 0, NoFrame, NoFrame, ts, pay, emb, -1,
+                     IF nchunks > 0 THEN nchunks ELSE -1, IF nchunks > 0 THEN 0 ELSE slen) EXCEPT !.meta = meta]
+      recs == <<parent>> \o ChunkRecs(0, nchunks, pseq, uri, ts, pay, cembs)
+  IN /\ hdl = "rw" /\ Len(lens) = 1 + nchunks
+     /\ AppendRecords(recs, lens, 1 + nchunks, lexLen, pe, "put", [k |-> "put", pay |-> pay, uri |-> uri])
+     /\ UNCHANGED <<hdl, snap, noAuto, ticket>>
+
 PutM(uri, role, ts, pay, emb, nchunks, cembs, slen, lens, lexLen, pe, meta) ==
   /\ hdl = "rw"
   /\ Len(lens) = 1 + nchunks
-  /\ IF slen > 0 /\ CapacityUsed + slen > Capacity
+  /\ IF Over(slen)
        THEN Reject("put", "CapacityExceeded")
-       ELSE LET pseq == wseq + 1
-                parent == [Ins(pseq, uri, role, 0, NoFrame, NoFrame, ts, pay, emb, -1,
-                               IF nchunks > 0 THEN nchunks ELSE -1, IF nchunks > 0 THEN 0 ELSE slen) EXCEPT !.meta = meta]
-                recs == <<parent>> \o ChunkRecs(0, nchunks, pseq, uri, ts, pay, cembs)
-            IN /\ AppendRecords(recs, lens, 1 + nchunks, lexLen, pe, "put", [k |-> "put", pay |-> pay, uri |-> uri])
-               /\ UNCHANGED <<hdl, snap, noAuto, ticket>>
+       ELSE PutDo(uri, role, ts, pay, emb, nchunks, cembs, slen, lens, lexLen, pe, meta)
 
 Put(uri, role, ts, pay, emb, nchunks, cembs, slen, lens, lexLen, pe) ==
   PutM(uri, role, ts, pay, emb, nchunks, cembs, slen, lens, lexLen, pe, NoMeta)
